@@ -17,6 +17,7 @@ var errC06Fault = errors.New("injected fault")
 
 // c06Store: single-cell KVStore stub honouring the interface contract. Every call may fail (symbolic fault bit).
 type c06Store struct {
+	mu      sync.Mutex // the stub itself is thread-safe, like a real store
 	has     bool
 	val     []byte
 	faults  bool // fault injection enabled
@@ -36,6 +37,8 @@ func (c *c06Store) fail() bool {
 }
 
 func (c *c06Store) Get(Key) (Value, error) {
+	c.mu.Lock()
+	defer c.mu.Unlock()
 	if c.fail() {
 		return nil, errC06Fault
 	}
@@ -47,6 +50,8 @@ func (c *c06Store) Get(Key) (Value, error) {
 }
 
 func (c *c06Store) Has(Key) (bool, error) {
+	c.mu.Lock()
+	defer c.mu.Unlock()
 	if c.fail() {
 		return false, errC06Fault
 	}
@@ -55,6 +60,8 @@ func (c *c06Store) Has(Key) (bool, error) {
 }
 
 func (c *c06Store) Set(_ Key, v Value) error {
+	c.mu.Lock()
+	defer c.mu.Unlock()
 	if c.fail() {
 		return errC06Fault
 	}
@@ -65,6 +72,8 @@ func (c *c06Store) Set(_ Key, v Value) error {
 }
 
 func (c *c06Store) Delete(Key) error {
+	c.mu.Lock()
+	defer c.mu.Unlock()
 	if c.fail() {
 		return errC06Fault
 	}
@@ -551,4 +560,69 @@ func H_C06_store() {
 		}
 		verifrt.Assert(same(), "TypedStore.Iterate changed the store")
 	}
+}
+
+// H_C06_conc2: every pair of concurrent writers (Compute(+1), Set, Delete) on one TypedValue is serialised:
+// afterwards the cache agrees with the raw store and the result matches one of the two serial orders.
+//
+//verif:h prop=C06 preempt=2/3 cover=done runs=3000000 timeout=250/2400
+func H_C06_conc2() {
+	st := &c06Store{}
+	cd := &c06Codec{st: st}
+	tv := NewTypedValue[uint64](st, []byte("k"), cd.enc, cd.dec)
+	tv.Set(10)
+	inc := func(cur uint64, exists bool) (uint64, error) {
+		if !exists {
+			return 100, nil
+		}
+
+		return cur + 1, nil
+	}
+	op := func(which int, id uint64) {
+		switch which {
+		case 0:
+			tv.Compute(inc)
+		case 1:
+			tv.Set(20 + id)
+		case 2:
+			tv.Delete()
+		}
+	}
+	serial := func(first, second int, id1, id2 uint64) (uint64, bool) {
+		v, has := uint64(10), true
+		apply := func(which int, id uint64) {
+			switch which {
+			case 0:
+				if has {
+					v++
+				} else {
+					v, has = 100, true
+				}
+			case 1:
+				v, has = 20+id, true
+			case 2:
+				has = false
+			}
+		}
+		apply(first, id1)
+		apply(second, id2)
+
+		return v, has
+	}
+	a, b := verifrt.Choose("a", 3), verifrt.Choose("b", 3)
+	var wg sync.WaitGroup
+	wg.Add(2)
+	go func() { defer wg.Done(); verifrt.MustFinish(); op(a, 1) }()
+	go func() { defer wg.Done(); verifrt.MustFinish(); op(b, 2) }()
+	wg.Wait()
+	verifrt.Cover("done")
+	got, err := tv.Get()
+	fresh := NewTypedValue[uint64](st, []byte("k"), cd.enc, cd.dec)
+	raw, rerr := fresh.Get()
+	verifrt.Assert((err == nil) == (rerr == nil) && (err != nil || got == raw), "after concurrent writers the cached view and the raw store disagree")
+	v1, h1 := serial(a, b, 1, 2)
+	v2, h2 := serial(b, a, 2, 1)
+	ok1 := h1 == (rerr == nil) && (!h1 || raw == v1)
+	ok2 := h2 == (rerr == nil) && (!h2 || raw == v2)
+	verifrt.Assert(ok1 || ok2, "the result of two concurrent writers matches neither serial order (lost update)")
 }
